@@ -299,6 +299,12 @@ def run_check(mod, tier, seed, n_runs=None, workers=None, budget_s=None, quiet=F
         os.makedirs(edir, exist_ok=True)
         with open(os.path.join(edir, mod.PROP + ".json"), "w") as fid:
             json.dump(ev, fid, indent=1, default=str)
+        if tier == "thorough" and not adhoc:
+            # the last thorough run is also kept beside the per-property file, which the
+            # next quick run replaces
+            os.makedirs(os.path.join(edir, "thorough"), exist_ok=True)
+            with open(os.path.join(edir, "thorough", mod.PROP + ".json"), "w") as fid:
+                json.dump(ev, fid, indent=1, default=str)
     if not quiet:
         print("%s tier=%s seed=%s runs=%d (search %d, sweep %d) distinct=%d nontrivial=%d shapes=%d "
               "steps=%d wall=%.1fs fired=%s" % (mod.PROP, tier, seed, n, per_kind["search"],
